@@ -1,6 +1,7 @@
 From Coq Require Import Sorting.Sorted.
 From Stam Require Import Base.Tac Model.Offset Model.Store Model.StoreObs Spec.StoreSpec
      Proofs.StoreScan Proofs.StoreInv Proofs.StoreDataDef Proofs.StoreRemove Proofs.StoreData Proofs.StoreStable Model.Compress Proofs.Compress Proofs.StoreSel Props.C01.
+From Stam Require Proofs.ValidateProtect.
 Check (C01_index_invariant : forall ops, Inv (run ops)).
 Check (C01_textselection_annotations : forall ops r t, m_ts_anns (run ops) r t = s_ts_anns (run ops) r t).
 Check (C01_annotation_annotations : forall ops a, m_ann_anns (run ops) a = s_ann_anns (run ops) a).
@@ -36,3 +37,5 @@ Print Assumptions C01_targets_never_change.
 Print Assumptions C01_compression_lossless.
 Print Assumptions C01_text_selections_interned.
 Print Assumptions C01_compressed_target_roundtrip.
+Check (C01_index_invariant_with_protect_text : forall s, ValidateProtect.reach s -> Inv s).
+Print Assumptions C01_index_invariant_with_protect_text.
